@@ -1270,15 +1270,18 @@ func (p *balloons) Reconfigure(newCfg interface{}) error {
 		}
 		return nil
 	}
-	allowed, reserved, applied := p.allowed, p.reserved, p.bpoptions
+	saved := *p
 	if err := p.setConfig(newBalloonsOptions); err != nil {
 		log.Error("config update failed: %v", err)
-		if p.bpoptions == applied {
-			// Rejected before anything was applied.
-			p.allowed, p.reserved = allowed, reserved
-		} else {
-			// Partially applied, make reverting rebuild everything.
-			p.uoptions = nil
+		// Put back the previous balloons and their CPU classes.
+		*p = saved
+		if err := p.resetCpuClass(); err != nil {
+			log.Warnf("failed to reset CPU class: %v", err)
+		}
+		for _, bln := range p.balloons {
+			if err := p.useCpuClass(bln); err != nil {
+				log.Warnf("failed to apply CPU class to balloon %s: %v", bln.PrettyName(), err)
+			}
 		}
 		return err
 	}
@@ -1413,7 +1416,6 @@ func (p *balloons) setConfig(bpoptions *BalloonsOptions) error {
 	p.reservedBalloonDef = reservedBalloonDef
 	p.defaultBalloonDef = defaultBalloonDef
 	p.balloons = []*Balloon{}
-	p.memAllocator.Reset()
 	p.freeCpus = p.allowed.Clone()
 	p.bpoptions = bpoptions
 
@@ -1429,6 +1431,9 @@ func (p *balloons) setConfig(bpoptions *BalloonsOptions) error {
 		}
 	}
 	p.ifreeCpus = p.freeCpus.Clone()
+
+	// All balloons and their members are gone, so are their memory allocations.
+	p.memAllocator.Reset()
 
 	// Finish balloon instance initialization.
 	log.Info("%s policy balloons:", PolicyName)
